@@ -29,6 +29,7 @@ fn value_json(v: &Value) -> String {
         Value::Float(Some(x)) => format!("{x:?}"), Value::Double(Some(x)) => format!("{x:?}"),
         Value::String(Some(s)) => format!("\"{}\"", esc(s)),
         Value::Char(Some(ch)) => format!("\"{}\"", esc(&ch.to_string())),
+        Value::Bytes(Some(b)) => format!("{{\"hex\":\"{}\"}}", b.iter().map(|x| format!("{x:02x}")).collect::<String>()),
         _ => "null".to_string(),
     }
 }
@@ -120,6 +121,10 @@ pub fn cases() -> Vec<Pair> {
         ("cast", c("v").cast_as(a("text")), "CAST(\"v\" AS text)"), ("abs / neg", Func::abs(c("v").sub(35)).into(), "ABS(\"v\" - 35)"),
         ("tuple in", Expr::tuple([c("id").into(), c("v").into()]).in_tuples([(1, 10), (3, 31)]), "(\"id\", \"v\") IN ((1, 10), (3, 31))"),
         ("text", c("g").eq("it's"), "\"g\" = 'it''s'"),
+        ("text backslash", c("g").ne("a\\b'c"), "\"g\" <> 'a\\b''c'"),
+        ("bytes", Expr::val(vec![0u8, 0x0a, 0x10, 0xff, 0x07]).into(), "x'000A10FF07'"),
+        ("bytes compare", Expr::val(vec![0x0au8, 0x01]).lt(Expr::val(vec![0x0au8, 0x10])), "x'0A01' < x'0A10'"),
+        ("char", Expr::val('q').into(), "'q'"), ("bool", Expr::val(true).and(c("v").gt(30)), "TRUE AND (\"v\" > 30)"), ("float", c("v").mul(1.5f64), "\"v\" * 1.5"),
     ];
     for (name, e, text) in exprs {
         let s = Query::select().column(a("id")).expr(e.clone()).from(a("t")).order_by(a("id"), Order::Asc).to_owned();
@@ -139,6 +144,11 @@ pub fn cases() -> Vec<Pair> {
     }
     let s = Query::select().column(a("id")).from(a("t")).order_by(a("g"), Order::Field(Values(vec!["b".into(), "a".into()]))).order_by(a("id"), Order::Desc).to_owned();
     both_p(&mut out, "order by field", &s, "SELECT \"id\" FROM \"t\" ORDER BY CASE WHEN \"g\" = 'b' THEN 0 WHEN \"g\" = 'a' THEN 1 ELSE 2 END, \"id\" DESC", true, true);
+    // ORDER BY FIELD together with NULLS FIRST / LAST (the explicit text is the dialect's own form: the NULLS suffix attaches to the CASE expression)
+    for (k, n) in [NullOrdering::First, NullOrdering::Last].into_iter().enumerate() {
+        let s = Query::select().column(a("id")).from(a("t")).order_by_with_nulls(a("g"), Order::Field(Values(vec!["b".into(), "a".into()])), n).order_by(a("id"), Order::Desc).to_owned();
+        both_p(&mut out, &format!("order by field nulls={k}"), &s, &format!("SELECT \"id\" FROM \"t\" ORDER BY CASE WHEN \"g\" = 'b' THEN 0 WHEN \"g\" = 'a' THEN 1 ELSE 2 END NULLS {}, \"id\" DESC", if k == 0 { "FIRST" } else { "LAST" }), true, true);
+    }
     // ---- joins, set operations, CTEs, sub-queries, windows
     for (k, (jt, kw)) in [(JoinType::InnerJoin, "INNER JOIN"), (JoinType::LeftJoin, "LEFT JOIN"), (JoinType::CrossJoin, "CROSS JOIN")].into_iter().enumerate() {
         let mut s = Query::select(); s.column((a("t"), a("id"))).column(a("x")).from(a("t")).order_by((a("t"), a("id")), Order::Asc).order_by(a("x"), Order::Asc);
